@@ -464,6 +464,7 @@ func (w *twkbWriter) writeGeometryCollection(gc GeometryCollection) error {
 		}
 		subTWKB := subWriter.formTWKB()
 		w.twkbContents = append(w.twkbContents, subTWKB...)
+		w.mergeBBox(subWriter)
 	}
 	return nil
 }
@@ -575,6 +576,23 @@ func (w *twkbWriter) writeAdditionalHeaders() {
 	if w.hasSize {
 		w.writeSizeHeader(len(w.twkbBBox), len(w.twkbContents))
 	}
+}
+
+// mergeBBox expands the bounding box to include that of a sub-writer (which
+// must have the same dimensions and precisions).
+func (w *twkbWriter) mergeBBox(sub *twkbWriter) {
+	if !sub.bboxValid {
+		return
+	}
+	for d := 0; d < w.dimensions; d++ {
+		if !w.bboxValid || sub.bboxMin[d] < w.bboxMin[d] {
+			w.bboxMin[d] = sub.bboxMin[d]
+		}
+		if !w.bboxValid || sub.bboxMax[d] > w.bboxMax[d] {
+			w.bboxMax[d] = sub.bboxMax[d]
+		}
+	}
+	w.bboxValid = true
 }
 
 func (w *twkbWriter) writeBBoxHeader() {
